@@ -11,18 +11,19 @@ import Demeter.TickMath
 import Proofs.Tie.Basic
 set_option linter.unusedSimpArgs false
 namespace Demeter
-open Gen Py
+namespace Tie end Tie
+open Tie Gen Py
 
 /-- the chain `if abs_tick & mask != 0: ratio = (ratio * c) >> shift` over a table, on `Int` as the code computes it -/
-def foldI (a : Int) (sh : Nat) : List (Nat × Nat) → Int → Int
+def Tie.foldI (a : Int) (sh : Nat) : List (Nat × Nat) → Int → Int
   | [], r => r
   | (m, c) :: rest, r => foldI a sh rest (if Py.band a (m : Int) ≠ 0 then (r * (c : Int)) >>> sh else r)
 
-def finishI (r : Int) : Int :=
+def Tie.finishI (r : Int) : Int :=
   (r >>> tickFinalShift) + (if Int.fmod r (tickFinalMod : Int) = 0 then 0 else 1)
 
 /-- the generated definition, folded back over the generated table -/
-def pyTick (tick : Int) : M Int :=
+def Tie.pyTick (tick : Int) : M Int :=
   let a := if tick ≥ 0 then tick else -tick
   if ¬ a ≤ (tickBound : Int) then .error .AssertionError else
   let r := foldI a tickShift tickTable (if Py.band a 1 ≠ 0 then (tickStartOdd : Int) else (tickStartEven : Int))
@@ -30,11 +31,11 @@ def pyTick (tick : Int) : M Int :=
     Except.bind (floordiv (tickUintMax : Int) r) (fun v => .ok (finishI v))
   else .ok (finishI r)
 
-theorem py_tick_eq (tick : Int) : Py.get_sqrt_ratio_at_tick tick = pyTick tick := by
+theorem Tie.py_tick_eq (tick : Int) : Py.get_sqrt_ratio_at_tick tick = pyTick tick := by
   unfold Py.get_sqrt_ratio_at_tick pyTick
   rfl
 
-theorem foldI_cast (a : Nat) (tbl : List (Nat × Nat)) (r : Nat) :
+theorem Tie.foldI_cast (a : Nat) (tbl : List (Nat × Nat)) (r : Nat) :
     foldI (a : Int) tickShift tbl (r : Int) = ((tickFold a tbl r : Nat) : Int) := by
   induction tbl generalizing r with
   | nil => rfl
@@ -49,7 +50,7 @@ theorem foldI_cast (a : Nat) (tbl : List (Nat × Nat)) (r : Nat) :
     · have h' : ((a &&& m : Nat) : Int) ≠ 0 := by omega
       simp [h, h']
 
-theorem finishI_cast (r : Nat) :
+theorem Tie.finishI_cast (r : Nat) :
     finishI (r : Int) = (((r >>> tickFinalShift) + (if r % tickFinalMod = 0 then 0 else 1) : Nat) : Int) := by
   unfold finishI
   rw [fmod_nat, shr_nat]
@@ -59,11 +60,11 @@ theorem finishI_cast (r : Nat) :
     simp [h, h']
 
 /-- every step taken: a lower bound of the fold whatever the tick -/
-def foldAll : List (Nat × Nat) → Nat → Nat
+def Tie.foldAll : List (Nat × Nat) → Nat → Nat
   | [], r => r
   | (_, c) :: rest, r => foldAll rest ((r * c) >>> tickShift)
 
-theorem foldAll_le (a : Nat) (tbl : List (Nat × Nat)) (hc : ∀ p ∈ tbl, p.2 ≤ 2 ^ tickShift) (r r' : Nat) (h : r ≤ r') :
+theorem Tie.foldAll_le (a : Nat) (tbl : List (Nat × Nat)) (hc : ∀ p ∈ tbl, p.2 ≤ 2 ^ tickShift) (r r' : Nat) (h : r ≤ r') :
     foldAll tbl r ≤ tickFold a tbl r' := by
   induction tbl generalizing r r' with
   | nil => exact h
@@ -84,11 +85,11 @@ theorem foldAll_le (a : Nat) (tbl : List (Nat × Nat)) (hc : ∀ p ∈ tbl, p.2 
     · exact h1
     · exact h2
 
-theorem table_le : ∀ p ∈ tickTable, p.2 ≤ 2 ^ tickShift := by decide
+theorem Tie.table_le : ∀ p ∈ tickTable, p.2 ≤ 2 ^ tickShift := by decide
 
-theorem foldAll_pos : 0 < foldAll tickTable (min tickStartOdd tickStartEven) := by decide
+theorem Tie.foldAll_pos : 0 < foldAll tickTable (min tickStartOdd tickStartEven) := by decide
 
-theorem tickFold_pos (a : Nat) : 0 < tickFold a tickTable (if a &&& 1 != 0 then tickStartOdd else tickStartEven) := by
+theorem Tie.tickFold_pos (a : Nat) : 0 < tickFold a tickTable (if a &&& 1 != 0 then tickStartOdd else tickStartEven) := by
   apply Nat.lt_of_lt_of_le foldAll_pos
   apply foldAll_le a tickTable table_le
   split
